@@ -23,6 +23,8 @@ SHAPES = {
     "VS": ("v(L)", ["s"]),
     "U": ("q(c(L,c(L,u)))", ["i32", "s"]),
     "S": ("q(L)", ["s"]),
+    "TS": ("c(L,c(q(L),u))", ["i32", "s"]),    # a smart pointer to a plain type inside a tuple
+    "PU": ("p(q(L),L)", ["i32", "i32"]),       # ... inside a pair
     "G": ("u", []),
 }
 
@@ -156,9 +158,9 @@ def model_input(c, a):
 
 C16 = Prop(
     "C16", "hash", ["NitroVerif.Props.C16"], gen_c16,
-    rule="12 value shapes (mix-in structs with 1-4 members over int8/int32/int64/uint64/string/double incl. signed "
+    rule="14 value shapes (mix-in structs with 1-4 members over int8/int32/int64/uint64/string/double incl. signed "
          "zeros, a struct nested in a struct, tuple<int,pair<int,string>>, pair<tuple<int,int>,int>, variant<int,string> "
-         "in both alternatives, unique_ptr<struct>, shared_ptr<string>, empty tuple); exhaustive: all ordered pairs over a "
+         "in both alternatives, unique_ptr<struct>, shared_ptr<string>, tuple<int,shared_ptr<string>>, pair<unique_ptr<int>,int>, empty tuple); exhaustive: all ordered pairs over a "
          "grid of 3-6 values per member (sampled to 60 values per shape in the quick tier for 3+ members); unordered_set/"
          "map insert-then-lookup over grids; seeded random values incl. one-leaf differences. The harness prints each "
          "leaf's std::hash, so the model predicts the exact 64-bit combined hash. Non-trivial: at least two leaves. "
